@@ -556,6 +556,12 @@ func c08Work(c *engine.Ctx) {
 			c.Exec(anysp, in, map[string]string{"inline": "1"})
 			c.Count("exec", 2)
 		})
+		c.ByteSweep([]byte(seed), true, func(in []byte) {
+			c.Exec(anysp, in, map[string]string{"inline": "0"})
+			c.Exec(anysp, in, map[string]string{"inline": "1"})
+			c.Count("exec", 2)
+			c.Count("byte-sweep", 1)
+		})
 	}
 }
 
